@@ -12,7 +12,7 @@ pub fn spec() -> PropSpec {
     PropSpec {
         id: "C06",
         level: "exploration",
-        rule: "decode_mutation / decode_mutations: all word strings of length <= 4 (thorough 6) over {MIN,-1,0,1,2,3,5,MAX}; Predicate::decode, asm::from_bytes, BytecodeMapped::try_from: all byte strings of length <= 2 over all 256 values, all strings of <= 3 (thorough 4) symbols over {opcode bytes, 0x00, 0x0F, 0xFF}, structure-aware predicate blobs (num_nodes and num_edges in {0,1,2,1000,1001,65535}, every truncation point up to 80 bytes and at every field boundary); Predicate::node_edges on every C01 encoding x node index {0..n+1, usize::MAX}; predicate::check / check_contract on size-limit shapes; every C01 graph encoding (cyclic, dangling, malformed included) through check_set, the two-pass entry point and both run modes; node programs that are arbitrary byte strings (truncated Push at every cut, invalid opcodes) through the same entry points and the raw-byte effect scan; data-output leaves whose memory is each enumerated word string; pre/post reads with counts {0,1,2,10241,2^31,MAX} with the contract present/absent in the post state. Oracle: returns Ok or a typed Err — no panic (catch_unwind), no abort and no run-away (worker processes under an 8 GiB address-space limit and a 120 s per-case horizon; a dead worker's write-ahead case is re-run alone twice and reported when it dies both times). Both arithmetic profiles. non-trivial = the decoder/check returned Ok; distinct by input",
+        rule: "decode_mutation / decode_mutations: all word strings of length <= 4 (thorough 6) over {MIN,-1,0,1,2,3,5,MAX}; Predicate::decode, asm::from_bytes, BytecodeMapped::try_from: all byte strings of length <= 2 over all 256 values, all strings of <= 3 (thorough 4) symbols over {opcode bytes, 0x00, 0x0F, 0xFF}, structure-aware predicate blobs (num_nodes and num_edges in {0,1,2,1000,1001,65535}, every truncation point up to 80 bytes and at every field boundary); Predicate::node_edges on every C01 encoding x node index {0..n+1, usize::MAX}; predicate::check / check_contract on size-limit shapes; every C01 graph encoding (cyclic, dangling, malformed included) through check_set, the two-pass entry point and both run modes; node programs that are arbitrary byte strings (truncated Push at every cut, invalid opcodes) through the same entry points and the raw-byte effect scan; data-output leaves whose memory is each enumerated word string; pre/post reads with counts {0,1,2,10241,2^31,MAX} with the contract present/absent in the post state; a pre-state that answers a read with fewer values than asked. Oracle: returns Ok or a typed Err — no panic (catch_unwind), no abort and no run-away (worker processes under an 8 GiB address-space limit and a 120 s per-case horizon; a dead worker's write-ahead case is re-run alone twice and reported when it dies both times). Both arithmetic profiles. non-trivial = the decoder/check returned Ok; distinct by input",
         assumptions: &[
             "a GetProgram/GetPredicate that lacks a requested address, and calling check_set_predicates on a set check_set rejects, are documented preconditions (not exercised)",
             "'abort on allocation' is observed under an 8 GiB address-space limit; 'run-away' means no new case started for 120 s (quick) / 600 s (thorough)",
@@ -169,7 +169,7 @@ fn raw_output_case(words: &[W], declared: bool) -> CkCase {
         preds: vec![PredCase { nodes: vec![(u16::MAX, Role::LeafRaw(words.to_vec()))], edges: vec![] }],
         sols: vec![SolCase { pred: 0, contract: 0xC1, data: vec![], mutations: if declared { vec![(vec![5], vec![1])] } else { vec![] } }],
         pre: vec![],
-        strict: false,
+        strict: false, short: false,
         collect_all: false,
     }
 }
@@ -188,10 +188,29 @@ fn read_count_cases() -> Vec<CkCase> {
                         preds: vec![PredCase { nodes: vec![(u16::MAX, probe)], edges: vec![] }],
                         sols: vec![SolCase { pred: 0, contract: 0xC1, data: vec![], mutations: if present { vec![(vec![3], vec![8])] } else { vec![] } }],
                         pre: vec![(0xC1, vec![3], vec![5]), (0xC5, vec![3], vec![6])],
-                        strict: false,
+                        strict: false, short: false,
                         collect_all: false,
                     });
                 }
+            }
+        }
+    }
+    v
+}
+
+fn short_answer_cases() -> Vec<CkCase> {
+    let mut v = vec![];
+    for op in 0..4u8 {
+        for count in [0, 1, 2, 3] {
+            for muts in [vec![], vec![(vec![4], vec![8])], vec![(vec![3], vec![8])]] {
+                v.push(CkCase {
+                    preds: vec![PredCase { nodes: vec![(u16::MAX, Role::Probe { op, ext: 0xC1, key: vec![3], count })], edges: vec![] }],
+                    sols: vec![SolCase { pred: 0, contract: 0xC1, data: vec![], mutations: muts }],
+                    pre: vec![(0xC7, vec![3], vec![5])],
+                    strict: false,
+                    short: true,
+                    collect_all: false,
+                });
             }
         }
     }
@@ -286,7 +305,7 @@ fn run(cfg: &RunCfg, rep: &mut Report) {
                 for r in roles.into_iter().step_by(3) {
                     let p = PredCase { nodes: starts.iter().cloned().zip(r).collect(), edges: edges.to_vec() };
                     for collect_all in [false, true] {
-                        let case = CkCase { preds: vec![p.clone()], sols: vec![SolCase { pred: 0, contract: 0xC1, data: vec![], mutations: vec![] }, SolCase { pred: 0, contract: 0xC2, data: vec![], mutations: vec![(vec![1], vec![2])] }], pre: vec![], strict: false, collect_all };
+                        let case = CkCase { preds: vec![p.clone()], sols: vec![SolCase { pred: 0, contract: 0xC1, data: vec![], mutations: vec![] }, SolCase { pred: 0, contract: 0xC2, data: vec![], mutations: vec![(vec![1], vec![2])] }], pre: vec![], strict: false, short: false, collect_all };
                         checker_case(&case, rep);
                     }
                 }
@@ -321,7 +340,7 @@ fn run(cfg: &RunCfg, rep: &mut Report) {
                     PredCase { nodes: vec![(0, Role::RawBytes(bytes.clone())), (l, Role::LeafDump)], edges: vec![1] }
                 };
                 for collect_all in [false, true] {
-                    checker_case(&CkCase { preds: vec![p.clone()], sols: vec![SolCase { pred: 0, contract: 0xC1, data: vec![], mutations: vec![] }], pre: vec![], strict: false, collect_all }, rep);
+                    checker_case(&CkCase { preds: vec![p.clone()], sols: vec![SolCase { pred: 0, contract: 0xC1, data: vec![], mutations: vec![] }], pre: vec![], strict: false, short: false, collect_all }, rep);
                 }
             }
         }
@@ -341,6 +360,12 @@ fn run(cfg: &RunCfg, rep: &mut Report) {
     for (i, c) in read_count_cases().into_iter().enumerate() {
         if cfg.mine(i as u64) {
             rep.sample(|| json!({"read_count_case": c.preds[0].nodes[0].1}));
+            checker_case(&c, rep);
+        }
+    }
+    // 6. a state that answers with fewer values than asked (none, for a contract it has never seen)
+    for (i, c) in short_answer_cases().into_iter().enumerate() {
+        if cfg.mine(i as u64) {
             checker_case(&c, rep);
         }
     }
